@@ -194,6 +194,19 @@ func runRadius(o *Out, r *rand.Rand, thorough bool, _ []string) {
 			if r.Intn(2) == 0 {
 				kind = "pong"
 			}
+			if r.Intn(10) == 0 {
+				// the record is handed to AddEnr again (an operator re-submitting known records): a node that is in the table
+				// already keeps the radius it reported; only a node that enters the table by this call starts with the maximum
+				before := membership()
+				nd.p.AddEnr(peer)
+				cached, found := nd.p.VerifRadiusCacheGet(peer.ID())
+				cs := "none"
+				if found {
+					cs = hex.EncodeToString(cached)
+				}
+				o.Case(fmt.Sprintf("raddenr before=%s member=%s", before, membership()), "cache="+cs)
+				continue
+			}
 			res := "ok"
 			if kind == "ping" {
 				ping := &portalwire.Ping{EnrSeq: 1, PayloadType: typ, Payload: payload}
